@@ -1109,6 +1109,10 @@ impl Sys for RawSys {
     fn take_counters(&mut self) -> Vec<(&'static str, u64)> {
         std::mem::take(&mut self.counters).into_iter().collect()
     }
+
+    fn abort_verdict(_cfg: &RawCfg, op: &RawOp) -> (String, String) {
+        ("C01".into(), format!("{}||process_abort", op.kind()))
+    }
 }
 
 impl RawSys {
